@@ -32,7 +32,8 @@ func IterateDirTree(name string, visitor func(string) (proceed bool, err error))
 		lastIndex = 0
 		proceed   = true
 	)
-	for i, r := range name {
+	// iterate over bytes, not runes: the index comparison below is in bytes
+	for i, r := range []byte(name) {
 		create = false
 
 		if r == '/' || r == filepath.Separator {
